@@ -7,7 +7,7 @@ use crate::json::Json;
 
 pub fn meta(_ctx: &Ctx) -> Meta {
     Meta {
-        rule: "every shape (c,h,w) in {1..4}^3 plus (1,1,7),(5,1,2),(2,6,1); every ordered 3-D->3-D pair; vector(n)<->3-D for n in 0..=64 against every shape; seven large shapes (1024..3072 elements, tall / wide / square) against each other and their vectors; ops flatten/get_flat/get_triple/reshape and there-and-back (get_triple of a vector as a 3-D shape of another count must be refused like reshape); every case with three kinds of contents: 0,1,2,.. (pairwise distinct); zeros and subnormal numbers only; a cycle through -0, subnormals, 1e-30, +-1e-5, 1+-ulp, +-MAX, +-inf and NaN - compared as bit patterns. Non-trivial = a case with >=2 elements whose target nesting differs from the source nesting".into(),
+        rule: "every shape (c,h,w) in {1..4}^3 plus (1,1,7),(5,1,2),(2,6,1); every ordered 3-D->3-D pair; vector(n)<->3-D for n in 0..=64 against every shape; targets with an extent of 0 (must be refused for a non-empty source); seven large shapes (1024..3072 elements, tall / wide / square) against each other and their vectors; ops flatten/get_flat/get_triple/reshape and there-and-back (get_triple of a vector as a 3-D shape of another count must be refused like reshape); every case with three kinds of contents: 0,1,2,.. (pairwise distinct); zeros and subnormal numbers only; a cycle through -0, subnormals, 1e-30, +-1e-5, 1+-ulp, +-MAX, +-inf and NaN - compared as bit patterns. Non-trivial = a case with >=2 elements whose target nesting differs from the source nesting".into(),
         bound: "extents <= 4 (thorough 5) plus elongated and large shapes, vector lengths <= 64 (thorough 128); complete within the bound".into(),
         exhaustive: true,
         assumptions: vec!["vector->vector reshape and get_triple are only exercised with equal counts (the refusal clause names vector<->3-D and 3-D<->3-D)".into()],
@@ -169,6 +169,13 @@ pub fn cases(thorough: bool) -> Vec<Kv> {
         }
         if n > 0 {
             out.push(Kv::new().put("from", Dims::Flat(n).name()).put("to", Dims::Flat(n).name()));
+        }
+    }
+    // targets with an extent of 0 (no elements): a non-empty source must be refused
+    for a in sh.iter().take(12) {
+        for z in [Dims::Chw(0, 2, 3), Dims::Chw(2, 0, 3), Dims::Chw(2, 3, 0), Dims::Chw(0, a.count().max(1), 1)] {
+            out.push(Kv::new().put("from", a.name()).put("to", z.name()));
+            out.push(Kv::new().put("from", Dims::Flat(a.count()).name()).put("to", z.name()));
         }
     }
     // beyond the small bound: tensors of 1024+ elements, tall and wide planes
